@@ -55,3 +55,14 @@ Print Assumptions C13_parser_never_panics.
 Theorem C13_is_exported_never_panics : forall name : str, exists b, run_bool fn_IsExported name = Some b.
 Proof. exact is_exported_never_panics. Qed.
 Print Assumptions C13_is_exported_never_panics.
+
+(* ---- from the source text (regenerated from /repo on every run): on a well-formed value the syntax tree of VVar.validate
+   (valid/validvar.go), under the semantics of Model/GoWalk.v, returns normally — never a panic, never a form the semantics
+   has no meaning for — for every configuration (any rule bytes, registered functions incl. nil) and every buffer, and what
+   it has written is exactly the clauses of the variable's rules, in rule order ---- *)
+From PGV Require Import Base.MiniGo Extracted.SourceFnsWalk Model.GoWalk Proofs.GoWalkProofs Proofs.GoWalkVar Proofs.GoWalkVarTotal.
+Theorem C13_var_walker_source_total : forall (c : cfg) (rules : rm) (tv : val) (b : buf), wf_val tv = true ->
+  run_var_validate c rules fn_VVar_validate tv b =
+  Some (Ok {| b_cl := rev (var_clauses c rules tv) ++ b_cl b; b_gr := b_gr b |}).
+Proof. exact var_walker_source_exact. Qed.
+Print Assumptions C13_var_walker_source_total.
